@@ -25,6 +25,12 @@
  *                             nothing of what lies behind it
  *   ln <path> <parent label> <label> <name> <file|-> <target path>   cg_gopath(<path>) + cg_link_write(<name>, <file> or ""
  *                             for a link inside the same file, <target path>)                        -> "l <status>"
+ *   raw <path> <parent label> <name> <payload>   a node labelled Blob_t with data of the type / shape its name selects (all ten
+ *                             types of the database), created through the cgio handle of the open file (cg_get_cgio) -> "l <status>"
+ *                             `v <path> <parent label> Blob_t` lists those nodes through cgio: name:payload when EVERY byte is
+ *                             what the payload generates, name:-2 / -4 / -5 for wrong bytes / wrong type or shape / unreadable
+ *   arrays (DataArray_t through cg_array_write / cg_array_general_write) under parents whose reader accepts any array carry one
+ *   of the seven types of the mid-level library and a 1-D / 2-D shape, both selected by the NAME; every element is verified
  *   p <path>                  the "P" descriptor read at <path> (through a link when the node is one)   -> "p <payload|?>"
  *   mv <from> <to>            rename(2) a file (a regenerated link target replaces the old one)      -> "c <status>"
  * <path> is the path of node names below the root ("/" = the root itself), resolved by cg_gopath, the indices the
@@ -34,6 +40,7 @@
 #include <stdlib.h>
 #include <string.h>
 #include "cgnslib.h"
+#include "cgns_io.h"
 
 static int fn = -1;
 static int variant = 0;          /* `variant N`: the arguments the single-child writers of `mk` use (0 = the plain ones) */
@@ -175,7 +182,9 @@ static int n_arb(int *n) { return cg_n_arbitrary_motions(fn, cB, Z, n); }
 static int r_arb(int i, char *nm, long *a, long *m) { CGNS_ENUMT(ArbitraryGridMotionType_t) t; int rc = cg_arbitrary_motion_read(fn, cB, Z, i, nm, &t); *a = t == CGNS_ENUMV(DeformingGrid); *m = 2; return rc; }
 static int w_zconn(const char *n, long p, int *i) { return cg_zconn_write(fn, cB, Z, n, i); }
 static int n_zconn(int *n) { return cg_nzconns(fn, cB, Z, n); }
-static int r_zconn(int i, char *nm, long *a, long *m) { *m = -1; return cg_zconn_read(fn, cB, Z, i, nm); }
+static char zc_sel[4096];
+/* (cg_zconn_read makes container i the current one: whatever the harness selected is forgotten) */
+static int r_zconn(int i, char *nm, long *a, long *m) { *m = -1; zc_sel[0] = 0; return cg_zconn_read(fn, cB, Z, i, nm); }
 static int w_subreg(const char *n, long p, int *i) { return cg_subreg_bcname_write(fn, cB, Z, n, 1 + (int)(p % 2), "bcname", i); }
 static int n_subreg(int *n) { return cg_nsubregs(fn, cB, Z, n); }
 static int r_subreg(int i, char *nm, long *a, long *m)
@@ -202,7 +211,29 @@ static int n_dataset(int *n)
 }
 static int r_dataset(int i, char *nm, long *a, long *m) { CGNS_ENUMT(BCType_t) t; int d, n; int rc = cg_dataset_read(fn, cB, Z, ix("BC_t"), i, nm, &t, &d, &n); *a = BCT_INV(t); *m = 20; return rc; }
 /* -- children of ZoneGridConnectivity_t: the API acts on the ACTIVE container */
-static int zc(void) { return cg_zconn_set(fn, cB, Z, ix("ZoneGridConnectivity_t")); }
+/* `zcmode set` (default): cg_zconn_set before every call.  `zcmode keep`: the harness remembers WHICH container (its path) it
+   selected last and selects again only when another one is wanted -- the library must keep that container current whatever
+   happens to its siblings in between.  Forgotten when a container is written (cg_zconn_write selects the new one), when the
+   remembered one or something above it is written or deleted, and at every open / close. */
+static int zc_keep = 0;
+static void zc_forget_under(const char *path, const char *name)
+{
+    char cp[4096]; size_t n;
+    if (!strcmp(path, "/")) snprintf(cp, sizeof cp, "/%s", name); else snprintf(cp, sizeof cp, "%s/%s", path, name);
+    n = strlen(cp);
+    if (!strncmp(zc_sel, cp, n) && (zc_sel[n] == 0 || zc_sel[n] == '/')) zc_sel[0] = 0;
+}
+static int zc(void)
+{
+    char want[4096]; int lvl = -1, rc;
+    for (int i = cdepth - 1; i >= 0; i--) if (!strcmp(clab[i], "ZoneGridConnectivity_t")) { lvl = i; break; }
+    snprintf(want, sizeof want, "%s", cpath);
+    if (lvl >= 0) { int seen = 0; for (char *q = want + 1; *q; q++) if (*q == '/' && ++seen == lvl + 2) { *q = 0; break; } }
+    if (zc_keep && lvl >= 0 && !strcmp(want, zc_sel)) return 0;
+    rc = cg_zconn_set(fn, cB, Z, ix("ZoneGridConnectivity_t"));
+    if (!rc && lvl >= 0) snprintf(zc_sel, sizeof zc_sel, "%s", want); else zc_sel[0] = 0;
+    return rc;
+}
 static int w_conn(const char *n, long p, int *i)
 {
     cgsize_t pnt[1] = {1}, size[9]; char zn[33];
@@ -328,9 +359,23 @@ static int w_part(const char *n, long p, int *i) { return cg_part_write(fn, cB, 
 static int n_part(int *n) { char nm[33], cad[33]; char *file = NULL; int rc = cg_geo_read(fn, cB, FA, ix("GeometryReference_t"), nm, &file, cad, n); if (file) cg_free(file); return rc; }
 static int r_part(int i, char *nm, long *a, long *m) { *a = 0; *m = 0; return cg_part_read(fn, cB, FA, ix("GeometryReference_t"), i, nm); }
 /* -- node-context kinds: they act at the current position */
-static int w_descr(const char *n, long p, int *i) { char t[32]; *i = 0; snprintf(t, sizeof t, "%ld", p); return cg_descriptor_write(n, t); }
+/* the text of a descriptor: the payload, ':' and 1 + p % 40 letters that depend on it (a string the copy must carry whole) */
+static void descr_text(char *t, size_t n, long p)
+{
+    int o = snprintf(t, n, "%ld:", p), len = 1 + (int)(p % 40);
+    for (int k = 0; k < len && (size_t)o + 1 < n; k++) t[o++] = (char)('a' + (p + 3 * k) % 26);
+    t[o] = 0;
+}
+static int w_descr(const char *n, long p, int *i) { char t[96]; *i = 0; descr_text(t, sizeof t, p); return cg_descriptor_write(n, t); }
 static int n_descr(int *n) { return cg_ndescriptors(n); }
-static int r_descr(int i, char *nm, long *a, long *m) { char *text = NULL; int rc = cg_descriptor_read(i, nm, &text); *a = (rc || !text) ? -1 : atol(text); *m = 0; if (text) cg_free(text); return rc; }
+static int r_descr(int i, char *nm, long *a, long *m)
+{
+    char *text = NULL, want[96]; int rc = cg_descriptor_read(i, nm, &text);
+    *a = (rc || !text) ? -1 : atol(text); *m = 0;
+    if (!rc && text && *a >= 0) { descr_text(want, sizeof want, *a); if (strcmp(want, text)) *a = -3; }   /* every character */
+    if (text) cg_free(text);
+    return rc;
+}
 static int w_user(const char *n, long p, int *i) { *i = 0; return cg_user_data_write(n); }
 static int n_user(int *n) { return cg_nuser_data(n); }
 static int r_user(int i, char *nm, long *a, long *m) { *m = -1; return cg_user_data_read(i, nm); }
@@ -341,8 +386,101 @@ static long array_len(void)
     if (!strcmp(pl, "DiscreteData_t") || !strcmp(pl, "ArbitraryGridMotion_t")) return zone_nvert();
     return 1;
 }
+/* ---- arrays of every data type.  Under the parents whose reader accepts any array, the TYPE and the SHAPE of an array follow
+ * from its NAME (so an in-place rewrite keeps them): "Ty<k>..." selects type k, any other name a hash.  Element k of a numeric
+ * array holds payload + 7 k (complex: imaginary part -(payload + k)); a byte array (C1, B1) holds the six decimal digits of the
+ * payload, lowest first, then letters that depend on payload and position.  The reader decodes the payload from element 0 and
+ * verifies EVERY element (-2 otherwise). */
+static const char *TYPES[10] = {"I4", "I8", "R4", "R8", "X4", "X8", "C1", "U4", "U8", "B1"};
+static int free_parent(const char *pl)
+{
+    /* (ReferenceState_t, BCData_t and the model nodes are read back only with scalar arrays; motion / discrete data only with
+       real arrays of the zone's size: those keep one integer / real per element) */
+    static const char *F[] = {"UserDefinedData_t", "IntegralData_t", "ConvergenceHistory_t", "ZoneSubRegion_t", "ZoneIterativeData_t",
+        "BaseIterativeData_t", "ParticleIterativeData_t", NULL};
+    for (int k = 0; F[k]; k++) if (!strcmp(F[k], pl)) return 1;
+    return 0;
+}
+static unsigned name_hash(const char *n) { unsigned h = 5381; for (; *n; n++) h = h * 33u + (unsigned char)*n; return h; }
+static int type_of_name(const char *n, int ntypes)
+{
+    if (n[0] == 'T' && n[1] == 'y' && n[2] >= '0' && n[2] <= '9') return (n[2] - '0') % ntypes;
+    return (int)(name_hash(n) % (unsigned)ntypes);
+}
+/* shape: rank 1 or 2, 8..12 elements for byte types, 3..6 otherwise */
+static int shape_of_name(const char *n, int ty, cgsize_t *dims)
+{
+    unsigned h = name_hash(n) / 16u;
+    int bytes = (ty == 6 || ty == 9);
+    if (h % 2) { dims[0] = bytes ? 4 : 2; dims[1] = bytes ? 2 + (cgsize_t)(h / 2 % 2) : 2 + (cgsize_t)(h / 2 % 2); return 2; }
+    dims[0] = bytes ? 8 + (cgsize_t)(h / 2 % 3) : 3 + (cgsize_t)(h / 2 % 3);
+    return 1;
+}
+static size_t type_size(int ty) { static const size_t S[10] = {4, 8, 4, 8, 8, 16, 1, 4, 8, 1}; return S[ty]; }
+static void fill_typed(int ty, long p, long n, void *buf)
+{
+    for (long k = 0; k < n; k++) {
+        long v = p + 7 * k;
+        switch (ty) {
+        case 0: ((int *)buf)[k] = (int)v; break;
+        case 1: ((cglong_t *)buf)[k] = (cglong_t)v; break;
+        case 2: ((float *)buf)[k] = (float)v; break;
+        case 3: ((double *)buf)[k] = (double)v; break;
+        case 4: ((float *)buf)[2 * k] = (float)v; ((float *)buf)[2 * k + 1] = -(float)(p + k); break;
+        case 5: ((double *)buf)[2 * k] = (double)v; ((double *)buf)[2 * k + 1] = -(double)(p + k); break;
+        case 7: ((unsigned *)buf)[k] = (unsigned)v; break;
+        case 8: ((cgulong_t *)buf)[k] = (cgulong_t)v; break;
+        default: {
+            long d = p; for (long j = 0; j < k && j < 6; j++) d /= 10;
+            ((char *)buf)[k] = k < 6 ? (char)('0' + d % 10) : (char)('a' + (p + 5 * k) % 26);
+        } }
+    }
+}
+/* -> the payload, or -2 when some element is not what fill_typed(payload) puts there */
+static long check_typed(int ty, long n, const void *buf)
+{
+    long p;
+    switch (ty) {
+    case 0: p = ((const int *)buf)[0]; break;
+    case 1: p = (long)((const cglong_t *)buf)[0]; break;
+    case 2: p = (long)((const float *)buf)[0]; break;
+    case 3: p = (long)((const double *)buf)[0]; break;
+    case 4: p = (long)((const float *)buf)[0]; break;
+    case 5: p = (long)((const double *)buf)[0]; break;
+    case 7: p = (long)((const unsigned *)buf)[0]; break;
+    case 8: p = (long)((const cgulong_t *)buf)[0]; break;
+    default: {
+        long m = 1; p = 0;
+        for (long k = 0; k < 6 && k < n; k++, m *= 10) { int c = ((const char *)buf)[k]; if (c < '0' || c > '9') return -2; p += (c - '0') * m; }
+    } }
+    if (p < 0 || p > 1000000) return -2;
+    void *want = calloc((size_t)n, type_size(ty));
+    fill_typed(ty, p, n, want);
+    int same = !memcmp(want, buf, (size_t)n * type_size(ty));
+    free(want);
+    return same ? p : -2;
+}
+static CGNS_ENUMT(DataType_t) mll_type(int ty)
+{
+    static const CGNS_ENUMT(DataType_t) T[7] = {CGNS_ENUMV(Integer), CGNS_ENUMV(LongInteger), CGNS_ENUMV(RealSingle), CGNS_ENUMV(RealDouble),
+                                                CGNS_ENUMV(ComplexSingle), CGNS_ENUMV(ComplexDouble), CGNS_ENUMV(Character)};
+    return T[ty];
+}
+static int typed_array_write(const char *n, long p, int inplace)
+{
+    cgsize_t dims[2], lo[2] = {1, 1}; int ty = type_of_name(n, 7), nd = shape_of_name(n, ty, dims), rc;
+    long cnt = (long)dims[0] * (nd == 2 ? (long)dims[1] : 1);
+    void *buf = calloc((size_t)cnt, type_size(ty));
+    fill_typed(ty, p, cnt, buf);
+    if (inplace) rc = cg_array_general_write(n, mll_type(ty), nd, dims, lo, dims, mll_type(ty), nd, dims, lo, dims, buf);
+    else rc = cg_array_write(n, mll_type(ty), nd, dims, buf);
+    free(buf);
+    return rc;
+}
+
 static int w_array(const char *n, long p, int *i)
 {
+    if (free_parent(plabel())) { *i = 0; return typed_array_write(n, p, 0); }
     long len = array_len(); cgsize_t dim = (cgsize_t)len; int rc;
     *i = 0;
     if (!strcmp(plabel(), "ArbitraryGridMotion_t")) {          /* only real arrays can be read back there */
@@ -362,6 +500,7 @@ static int u_array(const char *n, long p, int *i)
 {
     long len = array_len(); cgsize_t dim = (cgsize_t)len, lo = 1, hi = (cgsize_t)len; int rc;
     *i = 0;
+    if (free_parent(plabel())) return typed_array_write(n, p, 1);
     if (!strcmp(plabel(), "ArbitraryGridMotion_t")) {
         double *d = malloc(sizeof(double) * (size_t)len);
         for (long k = 0; k < len; k++) d[k] = (double)p;
@@ -380,6 +519,16 @@ static int r_array(int i, char *nm, long *a, long *m)
     int rc = cg_array_info(i, nm, &t, &nd, dims);
     *m = 0; *a = -1;
     if (rc) return rc;
+    if (free_parent(plabel())) {
+        cgsize_t want[2]; int ty = type_of_name(nm, 7), wnd = shape_of_name(nm, ty, want);
+        if (t != mll_type(ty) || nd != wnd || dims[0] != want[0] || (nd == 2 && dims[1] != want[1])) { *a = -4; return 0; }   /* type / shape */
+        long cnt = (long)dims[0] * (nd == 2 ? (long)dims[1] : 1);
+        void *buf = calloc((size_t)cnt + 1, type_size(ty));
+        rc = cg_array_read(i, buf);
+        if (!rc) *a = check_typed(ty, cnt, buf);
+        free(buf);
+        return rc;
+    }
     if (t == CGNS_ENUMV(Integer) && nd == 1 && dims[0] >= 1 && dims[0] < 100000) {
         int *buf = malloc(sizeof(int) * (size_t)dims[0]);
         rc = cg_array_read(i, buf); *a = buf[0]; v[0] = buf[0];
@@ -514,6 +663,7 @@ static void do_write(void)
     int idx = 0, rc;
     if (!k) { printf("w 9 0\n"); return; }
     if (go_for(path, pl, k)) { printf("w 1 0\n"); return; }
+    if (!strcmp(label, "ZoneGridConnectivity_t")) zc_sel[0] = 0; else if (W[0][0] == 'w') zc_forget_under(path, name);
     rc = (W[0][0] == 'u' && k->up) ? k->up(name, p, &idx) : k->wr(name, p, &idx);
     dbg(label, rc);
     if (rc) { printf("w 1 0\n"); return; }
@@ -541,9 +691,58 @@ static void do_delete(void)
     const char *path = W[1], *name = W[3];
     int rc;
     if (go(path)) { printf("d 1\n"); return; }
+    zc_forget_under(path, name);
     rc = cg_delete_node(name);
     dbg("delete", rc);
     printf("d %d\n", rc ? 1 : 0);
+}
+
+/* ---- nodes the mid-level library does not interpret (label Blob_t), created and read through the cgio handle of the open
+ * file: data of EVERY type the database stores, U4 / U8 / B1 included.  What the file holds of them is all there is. */
+static int blob_parent(const char *path, int *cgio, double *pid)
+{
+    double root;
+    if (cg_get_cgio(fn, cgio) || cg_root_id(fn, &root)) return 1;
+    if (!strcmp(path, "/")) { *pid = root; return 0; }
+    return cgio_get_node_id(*cgio, root, path, pid) ? 1 : 0;
+}
+static void do_raw(void)
+{
+    const char *path = W[1], *name = W[3]; long p = atol(W[4]);
+    int cgio, ty = type_of_name(name, 10), nd; double pid, id; cgsize_t dims[2];
+    if (blob_parent(path, &cgio, &pid)) { printf("l 1\n"); return; }
+    nd = shape_of_name(name, ty, dims);
+    long cnt = (long)dims[0] * (nd == 2 ? (long)dims[1] : 1);
+    if (cgio_create_node(cgio, pid, name, &id)) { printf("l 1\n"); return; }
+    void *buf = calloc((size_t)cnt, type_size(ty));
+    fill_typed(ty, p, cnt, buf);
+    int rc = cgio_set_label(cgio, id, "Blob_t") || cgio_set_dimensions(cgio, id, TYPES[ty], nd, dims) || cgio_write_all_data(cgio, id, buf);
+    free(buf);
+    printf("l %d\n", rc ? 1 : 0);
+}
+static void blob_view(const char *path)
+{
+    int cgio, n = 0, shown = 0; double pid; static char out[1 << 14]; size_t o = 0;
+    if (blob_parent(path, &cgio, &pid) || cgio_number_children(cgio, pid, &n)) { printf("v 0 -\n"); return; }
+    out[0] = 0;
+    for (int i = 1; i <= n && o < sizeof out - 200; i++) {
+        double id; int cnt1, nd = 0; char nm[CGIO_MAX_NAME_LENGTH + 1], lab[CGIO_MAX_LABEL_LENGTH + 1], dt[CGIO_MAX_DATATYPE_LENGTH + 1]; cgsize_t dims[CGIO_MAX_DIMENSIONS];
+        if (cgio_children_ids(cgio, pid, i, 1, &cnt1, &id) || cgio_get_label(cgio, id, lab) || strcmp(lab, "Blob_t")) continue;
+        if (cgio_get_name(cgio, id, nm)) continue;
+        long a = -1;
+        cgsize_t want[2]; int ty = type_of_name(nm, 10), wnd = shape_of_name(nm, ty, want);
+        if (cgio_get_data_type(cgio, id, dt) || cgio_get_dimensions(cgio, id, &nd, dims)) a = -1;
+        else if (strcmp(dt, TYPES[ty]) || nd != wnd || dims[0] != want[0] || (nd == 2 && dims[1] != want[1])) a = -4;
+        else {
+            long cnt = (long)dims[0] * (nd == 2 ? (long)dims[1] : 1);
+            void *buf = calloc((size_t)cnt + 1, type_size(ty));
+            if (cgio_read_all_data_type(cgio, id, dt, buf)) a = -5; else a = check_typed(ty, cnt, buf);
+            free(buf);
+        }
+        o += snprintf(out + o, sizeof out - o, "%s%s:%ld", shown ? "," : "", nm, a);
+        shown++;
+    }
+    printf("v %d %s\n", shown, shown ? out : "-");
 }
 
 static void do_link(void)
@@ -563,6 +762,7 @@ static void do_view(void)
     int n = 0, rc, shown = 0;
     static char out[1 << 16];
     size_t o = 0;
+    if (!strcmp(label, "Blob_t")) { blob_view(path); return; }
     if (!k) { printf("v 9 -\n"); return; }
     if (go_for(path, pl, k)) { printf("v 0 -\n"); return; }
     rc = k->cnt(&n);
@@ -688,6 +888,8 @@ static void do_full(void)
     else if (!strcmp(lab, "Area_t")) { CGNS_ENUMT(AreaType_t) ty; float ar = -1; char rn[33]; st = cg_bc_area_read(fn, cB, Z, ix("BC_t"), &ty, &ar, rn); printf("%d:%d:%ld", st, st ? -1 : (int)ty, (long)ar); }
     else if (!strcmp(lab, "Periodic_t")) { float c[3] = {-1, -1, -1}, an[3], tr[3]; if (zc()) printf("?"); else { st = cg_conn_periodic_read(fn, cB, Z, ix("GridConnectivity_t"), c, an, tr); printf("%d:%ld", st, (long)c[0]); } }
     else if (!strcmp(lab, "AverageInterface_t")) { CGNS_ENUMT(AverageInterfaceType_t) ty; if (zc()) printf("?"); else { st = cg_conn_average_read(fn, cB, Z, ix("GridConnectivity_t"), &ty); printf("%d:%d", st, st ? -1 : (int)ty); } }
+    else if (!strcmp(lab, "CGNSBase_t")) { CGNS_ENUMT(SimulationType_t) ty; st = cg_simulation_type_read(fn, cB, &ty); printf("%d:%d", st, st ? -1 : (int)ty); }
+    else if (!strcmp(lab, "BC_t")) { CGNS_ENUMT(GridLocation_t) loc; st = cg_boco_gridlocation_read(fn, cB, Z, ix("BC_t"), &loc); printf("%d:%d", st, st ? -1 : (int)loc); }
     else if (!strcmp(lab, "BCData_t")) { CGNS_ENUMT(BCType_t) ty; int d = -1, ne = -1; st = cg_dataset_read(fn, cB, Z, ix("BC_t"), ix("BCDataSet_t"), nm, &ty, &d, &ne); printf("%d:%d,%d", st, d, ne); }
     else printf("-");
     printf("\n");
@@ -722,6 +924,10 @@ static void do_mk(void)
     else if (!strcmp(what, "units")) rc = cg_units_write(CGNS_ENUMV(Kilogram), CGNS_ENUMV(Meter), CGNS_ENUMV(Second), CGNS_ENUMV(Kelvin), CGNS_ENUMV(Degree));
     else if (!strcmp(what, "unitsfull")) rc = cg_unitsfull_write(CGNS_ENUMV(Gram), CGNS_ENUMV(Centimeter), CGNS_ENUMV(Second), CGNS_ENUMV(Celsius), CGNS_ENUMV(Radian),
                                                                  CGNS_ENUMV(Ampere), CGNS_ENUMV(Mole), CGNS_ENUMV(Candela));
+    /* single-valued attributes of the index API, written again with another value (variant) */
+    else if (!strcmp(what, "simtype")) rc = cg_simulation_type_write(fn, cB, variant == 1 ? CGNS_ENUMV(SimulationTypeNull) : variant == 2 ? CGNS_ENUMV(TimeAccurate) : CGNS_ENUMV(NonTimeAccurate));
+    else if (!strcmp(what, "simtype2")) rc = cg_simulation_type_write(fn, cB, variant == 2 ? CGNS_ENUMV(TimeAccurate) : CGNS_ENUMV(NonTimeAccurate));
+    else if (!strcmp(what, "bocoloc")) rc = cg_boco_gridlocation_write(fn, cB, Z, ix("BC_t"), variant == 2 ? CGNS_ENUMV(FaceCenter) : CGNS_ENUMV(Vertex));
     else if (!strcmp(what, "gravity")) rc = cg_gravity_write(fn, cB, f3);
     else if (!strcmp(what, "axisym")) rc = cg_axisym_write(fn, cB, f3, f3);
     else if (!strcmp(what, "rotating")) rc = cg_rotating_write(f3, f3);
@@ -747,15 +953,18 @@ int main(void)
         else if (!strcmp(c, "open") && NW >= 3) {
             int mode = W[1][0] == 'r' ? CG_MODE_READ : W[1][0] == 'w' ? CG_MODE_WRITE : CG_MODE_MODIFY;
             snprintf(fname, sizeof fname, "%s", W[2]);
+            zc_sel[0] = 0;
             rc = cg_open(fname, mode, &fn); dbg("open", rc); printf("c %d\n", rc ? 1 : 0);
         }
         else if (!strcmp(c, "close")) { rc = cg_close(fn); dbg("close", rc); printf("c %d\n", rc ? 1 : 0); }
         else if (!strcmp(c, "reopen") && NW >= 2) {
+            zc_sel[0] = 0;
             rc = cg_close(fn); dbg("close", rc);
             if (!rc) { rc = cg_open(fname, W[1][0] == 'r' ? CG_MODE_READ : CG_MODE_MODIFY, &fn); dbg("open", rc); }
             printf("o %d\n", rc ? 1 : 0);
         }
         else if (!strcmp(c, "variant") && NW >= 2) { variant = atoi(W[1]); printf("c 0\n"); }
+        else if (!strcmp(c, "zcmode") && NW >= 2) { zc_keep = !strcmp(W[1], "keep"); zc_sel[0] = 0; printf("c 0\n"); }
         else if (!strcmp(c, "attach") && NW >= 2) do_attach();
         else if (!strcmp(c, "full") && NW >= 2) do_full();
         else if (!strcmp(c, "mk") && NW >= 3) do_mk();
@@ -763,6 +972,7 @@ int main(void)
         else if (!strcmp(c, "d") && NW >= 4) do_delete();
         else if (!strcmp(c, "v") && NW >= 4) do_view();
         else if (!strcmp(c, "ln") && NW >= 7) do_link();
+        else if (!strcmp(c, "raw") && NW >= 5) do_raw();
         else if (!strcmp(c, "p") && NW >= 2) { long pv = -1; if (go(W[1]) || !read_P(&pv)) printf("p ?\n"); else printf("p %ld\n", pv); }
         else if (!strcmp(c, "mv") && NW >= 3) { rc = rename(W[1], W[2]); printf("c %d\n", rc ? 1 : 0); }
         else printf("badline %s\n", c);
